@@ -67,8 +67,10 @@ fn one_case<const N: usize>(ctx: &mut Ctx, idx: usize) {
     let ms = edge_vec(&mut ctx.prng, N);
     let mut opts = [None; N];
     for o in opts.iter_mut() {
-        if ctx.prng.gen_range(0..4) == 0 {
-            *o = Some(edge_scalar(&mut ctx.prng));
+        match ctx.prng.gen_range(0..8) {
+            0 | 1 => *o = Some(edge_scalar(&mut ctx.prng)),
+            2 => *o = Some(Scalar::zero()),
+            _ => {}
         }
     }
     let (_proof, pd, w, c) = match srp_honest::<N>(ctx, kp.public_key(), &kpd.pk, &ms, &opts, ChalMode::Derived) {
